@@ -83,7 +83,8 @@ class DocGen:
             return f"IRun {self.leaf(0)}"
         if r < 0.58:
             self.has_tab = True
-            return self.rng.choice(["ITab", "IBreak"])
+            return self.rng.choice(["ITab", "ITab", "IBreak BrLine", "IBreak BrPage", "IBreak BrPage", "IBreak BrColumn",
+                                    "IBreak BrWrap", "IBreak BrCr", "IMark", "IMark"])
         if r < 0.65:
             return f"IDel {self.leaf(1)}"
         if r < 0.70:
@@ -155,7 +156,7 @@ def gen_docs(ctx, n: int) -> list[str]:
 
 
 # ----------------------------------------------------------------------------- tree generator
-DOCX_TAGS = ["W_p"] * 6 + ["W_r"] * 8 + ["W_t"] * 8 + ["W_tab", "W_br", "W_cr", "W_pPr", "W_rPr", "W_hyperlink", "W_ins",
+DOCX_TAGS = ["W_p"] * 6 + ["W_r"] * 8 + ["W_t"] * 8 + ["W_tab", "W_br", "W_cr", "W_lastRenderedPageBreak", "W_pPr", "W_rPr", "W_hyperlink", "W_ins",
              "W_del", "W_delText", "W_moveFrom", "W_sdt", "W_sdtContent", "W_smartTag", "W_tbl", "W_tbl", "W_tr", "W_tr",
              "W_tc", "W_tc", "W_tcPr", "W_pict", "W_drawing", "W_txbxContent", "MC_AlternateContent",
              "MC_AlternateContent", "MC_Choice", "MC_Choice", "MC_Fallback", "W_body", "W_sectPr", "(X_other 1)",
@@ -169,7 +170,7 @@ def gen_tree(rng, depth: int, tag: str | None = None) -> str:
     text = rng.choice(TEXTS) if (tag in ("W_t", "W_delText") or rng.random() < 0.15) else ""
     tail = rng.choice(TEXTS) if rng.random() < 0.1 else ""
     kids = []
-    if depth > 0 and tag not in ("W_t", "W_tab", "W_br", "W_cr", "W_delText"):
+    if depth > 0 and tag not in ("W_t", "W_tab", "W_br", "W_cr", "W_delText", "W_lastRenderedPageBreak"):
         for _ in range(rng.choice([0, 1, 1, 2, 2, 3, 4])):
             sub = None
             if tag in ("W_sdt", "W_sdtContent", "W_customXml") and rng.random() < 0.7:   # block-level wrappers
@@ -177,9 +178,12 @@ def gen_tree(rng, depth: int, tag: str | None = None) -> str:
             elif tag == "W_p" and rng.random() < 0.5:
                 sub = rng.choice(["W_r", "W_r", "W_hyperlink", "W_sdt", "W_ins"])
             elif tag == "W_r" and rng.random() < 0.6:
-                sub = rng.choice(["W_t", "W_t", "W_tab", "W_br", "MC_AlternateContent"])
+                sub = rng.choice(["W_t", "W_t", "W_t", "W_tab", "W_br", "W_br", "W_cr", "W_lastRenderedPageBreak",
+                                  "MC_AlternateContent"])
             kids.append(gen_tree(rng, depth - 1, sub))
     attrs = '[(s "w:val", s "v1")]' if rng.random() < 0.1 else "[]"
+    if tag == "W_br" and rng.random() < 0.7:
+        attrs = '[(s "w:type", s "%s")]' % rng.choice(["page", "page", "column", "textWrapping"])
     return f"(Elem {tag} {attrs} {coq_str(text) if text else '[]'} {coq_list(kids)} {coq_str(tail) if tail else '[]'})"
 
 
@@ -344,7 +348,7 @@ def et_to_coq(dx, root, limit=4000):
     W = "{http://schemas.openxmlformats.org/wordprocessingml/2006/main}"
     MC = "{http://schemas.openxmlformats.org/markup-compatibility/2006}"
     known = {W + "document": "W_document", W + "body": "W_body", W + "p": "W_p", W + "r": "W_r", W + "t": "W_t",
-             W + "tab": "W_tab", W + "br": "W_br", W + "cr": "W_cr", W + "tbl": "W_tbl", W + "tr": "W_tr",
+             W + "lastRenderedPageBreak": "W_lastRenderedPageBreak", W + "tab": "W_tab", W + "br": "W_br", W + "cr": "W_cr", W + "tbl": "W_tbl", W + "tr": "W_tr",
              W + "tc": "W_tc", W + "sdt": "W_sdt", W + "sdtContent": "W_sdtContent", W + "hyperlink": "W_hyperlink",
              W + "ins": "W_ins", W + "del": "W_del", W + "delText": "W_delText", W + "pict": "W_pict",
              W + "drawing": "W_drawing", W + "txbxContent": "W_txbxContent", W + "pPr": "W_pPr", W + "rPr": "W_rPr",
@@ -406,14 +410,15 @@ def run(ctx):
     ctx.extra["proved_walkers"] = ["DOCX body walk (C02/Props.v)", "ODT full-text walk (C02/PropsOdt.v)",
                                    "RTF stripper (C02/PropsRtf.v; regex pre-pass proved in the inert case, "
                                    "checked per case otherwise)"]
-    ctx.extra["correspondence_only_or_elsewhere"] = ["PPTX/XLSX/XLS/ODS/ODP/ODG: C03/C13", "HTML/MHTML/EPUB: C17",
+    ctx.extra["proved_walkers"].append("PPTX slide ordering step (stable sort by position; C02/PropsPptx.v) + end-to-end token oracle")
+    ctx.extra["correspondence_only_or_elsewhere"] = ["PPTX paragraph text, XLSX/XLS/ODS/ODP/ODG: C03/C13", "HTML/MHTML/EPUB: C17",
                                                      "PDF/DOC/PPT/MSG/EML/plain text: not modelled here"]
     docx_part(ctx, dx)
 
     import os
     import traceback
     only = os.environ.get("C02_ONLY", "")
-    for modname in ("props.c02_odt", "props.c02_rtf"):
+    for modname in ("props.c02_odt", "props.c02_rtf", "props.c02_pptx"):
         if only and modname.split("_")[-1] not in only.split(","):
             continue
         try:
@@ -557,7 +562,7 @@ def replay(ctx, rp):
     fmt = rp.get("format") or key.split(":")[0]
     if fmt != "docx":
         try:
-            mod = importlib.import_module({"odt": "props.c02_odt", "rtf": "props.c02_rtf"}.get(fmt, "props.c02_" + fmt))
+            mod = importlib.import_module({"odt": "props.c02_odt", "rtf": "props.c02_rtf", "pptx": "props.c02_pptx"}.get(fmt, "props.c02_" + fmt))
         except ModuleNotFoundError:
             mod = None
         if mod is not None and hasattr(mod, "replay_part"):
